@@ -296,11 +296,26 @@ func (n *c18Node) BeaconBlockHeader(ctx context.Context, opts *api.BeaconBlockHe
 			Root:      root,
 			Canonical: true,
 			Header: &phase0.SignedBeaconBlockHeader{
-				Message: &phase0.BeaconBlockHeader{Slot: phase0.Slot(blk.Slot), ProposerIndex: phase0.ValidatorIndex(f.block)},
+				Message: &phase0.BeaconBlockHeader{Slot: phase0.Slot(blk.Slot), ProposerIndex: phase0.ValidatorIndex(f.block), ParentRoot: n.parentRoot(f.block)},
 			},
 		},
 		Metadata: map[string]any{},
 	}, nil
+}
+
+// parentRoot links the blocks of the plan into a chain: the parent of a block is the block with the
+// greatest smaller slot (slots have gaps, like a chain with empty slots).
+func (n *c18Node) parentRoot(b int) phase0.Root {
+	best := -1
+	for i, x := range n.pl.Blocks {
+		if x.Slot < n.pl.Blocks[b].Slot && (best < 0 || x.Slot > n.pl.Blocks[best].Slot) {
+			best = i
+		}
+	}
+	if best < 0 {
+		return phase0.Root{}
+	}
+	return c18Root(best)
 }
 
 func (n *c18Node) SignedBeaconBlock(ctx context.Context, opts *api.SignedBeaconBlockOpts) (*api.Response[*spec.VersionedSignedBeaconBlock], error) {
@@ -309,19 +324,21 @@ func (n *c18Node) SignedBeaconBlock(ctx context.Context, opts *api.SignedBeaconB
 		return nil, err
 	}
 	slot := phase0.Slot(1)
+	var parent phase0.Root
 	if b, ok := n.byRoot[opts.Block]; ok {
 		slot = phase0.Slot(n.pl.Blocks[b].Slot)
+		parent = n.parentRoot(b)
 	}
 	if o.Kind == "odd" {
 		// a pre-merge style block: execution payload present but zeroed
 		return &api.Response[*spec.VersionedSignedBeaconBlock]{Data: &spec.VersionedSignedBeaconBlock{
 			Version:   spec.DataVersionBellatrix,
-			Bellatrix: &bellatrix.SignedBeaconBlock{Message: &bellatrix.BeaconBlock{Slot: slot, Body: &bellatrix.BeaconBlockBody{ExecutionPayload: &bellatrix.ExecutionPayload{}}}},
+			Bellatrix: &bellatrix.SignedBeaconBlock{Message: &bellatrix.BeaconBlock{Slot: slot, ParentRoot: parent, Body: &bellatrix.BeaconBlockBody{ExecutionPayload: &bellatrix.ExecutionPayload{}}}},
 		}, Metadata: map[string]any{}}, nil
 	}
 	return &api.Response[*spec.VersionedSignedBeaconBlock]{Data: &spec.VersionedSignedBeaconBlock{
 		Version: spec.DataVersionBellatrix,
-		Bellatrix: &bellatrix.SignedBeaconBlock{Message: &bellatrix.BeaconBlock{Slot: slot, Body: &bellatrix.BeaconBlockBody{
+		Bellatrix: &bellatrix.SignedBeaconBlock{Message: &bellatrix.BeaconBlock{Slot: slot, ParentRoot: parent, Body: &bellatrix.BeaconBlockBody{
 			ExecutionPayload: &bellatrix.ExecutionPayload{StateRoot: [32]byte{1}, BlockNumber: uint64(slot), BlockHash: phase0.Hash32{2, byte(slot)}},
 		}}},
 	}, Metadata: map[string]any{}}, nil
